@@ -1,5 +1,6 @@
 import CkbVerif.Driver.Util
 import CkbVerif.Model.Chain
+import CkbVerif.Model.ChainStatus
 
 /-!
 Line-protocol driver for C01 (and, with `crash` / `restart`, C08). Protocol (harness/n01/src/c01.rs):
@@ -21,7 +22,9 @@ Line-protocol driver for C01 (and, with `crash` / `restart`, C08). Protocol (har
                              it (and the model continues from it), else that of v = 0       -> state line
   scan <maxEpochLen> <order|->      the scan list only                                      -> ids
 
-state line: cb=<id>:<new|known|err|drop>,… tip=<id> td=<n> orph=<k> stored=<ids> ext=<id>:<td>,… ver=<ids> inv=<ids>
+state line: cb=<id>:<new|known|err|drop>,… tip=<id> td=<n> orph=<k> stored=<ids> ext=<id>:<td>,… ver=<ids> inv=<ids> st=<letters>
+  st: the answer of `Shared::get_block_status` (Model/ChainStatus.lean `blockStatus`) for every declared id in
+  ascending order, one letter each (U H R S V I)
 -/
 namespace CkbVerif.Driver.C01
 open CkbVerif.Driver CkbVerif.Chain
@@ -65,7 +68,8 @@ def stateLine (ds : List Decl) (s : State) (o : Out) : String :=
   let ext := showList (ids.filterMap fun i => (s.td i).map fun t => s!"{i}:{t}")
   let ver := showList ((ids.filter fun i => s.ver i && (s.td i).isSome).map toString)
   let inv := showList ((ids.filter fun i => s.invalid i).map toString)
-  s!"cb={cb} tip={s.tip} td={s.tipTd} orph={s.pool.length} stored={stored} ext={ext} ver={ver} inv={inv}"
+  let st := String.join (ids.map fun i => (blockStatus s i).letter)
+  s!"cb={cb} tip={s.tip} td={s.tipTd} orph={s.pool.length} stored={stored} ext={ext} ver={ver} inv={inv} st={st}"
 
 def getState (d : St) : State := match d.st with | some s => s | none => init (treeOf d.decls)
 
